@@ -2785,6 +2785,11 @@ func (p *Prog) globalLen(g *ssa.Global) (int64, bool) {
 		if l.isConst() {
 			return l.k, true
 		}
+	case *ssa.MakeSlice:
+		// make([]byte, len(<another package-level slice of known length>)): initialisation is dependency-ordered
+		if l := e.LE(v.Len); l.isConst() && l.k >= 0 {
+			return l.k, true
+		}
 	}
 	return 0, false
 }
